@@ -53,6 +53,29 @@ func directOps(r *rand.Rand, target *sm.World) []sm.Op {
 					chain = append(chain, sm.Op{Kind: f.kind, Acc: i, B: false})
 				}
 			}
+			// fee-sharing deposit (contract accounts only)
+			if a.Deposit != nil {
+				switch r.Intn(3) {
+				case 0:
+					chain = append(chain, sm.Op{Kind: sm.OpAddDeposit, Acc: i, Bal: a.Deposit})
+				case 1:
+					// more than needed, then consume the surplus by paying steps
+					k := int64(1 + r.Intn(30))
+					more := new(big.Int).Add(a.Deposit, new(big.Int).Mul(big.NewInt(k), sm.StepPrice))
+					chain = append(chain, sm.Op{Kind: sm.OpAddDeposit, Acc: i, Bal: more})
+					chain = maybeSnap(r, chain)
+					chain = append(chain, sm.Op{Kind: sm.OpPaySteps, Acc: i, Bal: big.NewInt(k)})
+				default:
+					chain = append(chain, sm.Op{Kind: sm.OpAddDeposit, Acc: i, Bal: someBal})
+					chain = maybeSnap(r, chain)
+					chain = append(chain, sm.Op{Kind: sm.OpWithdraw, Acc: i, B: true})
+					chain = append(chain, sm.Op{Kind: sm.OpAddDeposit, Acc: i, Bal: a.Deposit})
+				}
+			} else if r.Intn(3) == 0 {
+				chain = append(chain, sm.Op{Kind: sm.OpAddDeposit, Acc: i, Bal: someBal})
+				chain = maybeSnap(r, chain)
+				chain = append(chain, sm.Op{Kind: sm.OpWithdraw, Acc: i, B: true})
+			}
 		}
 		if len(chain) > 0 {
 			chains = append(chains, chain)
